@@ -510,6 +510,7 @@ struct SessCover {
     company_planned: u64,
     company_started: u64,
     company_failed: u64,
+    company_killed: u64,
     failing: Vec<(u64, Vec<Violation>)>,
     failing_total: u64,
     requested_not_run: u64,
@@ -537,6 +538,7 @@ impl SessCover {
         self.company_planned += o.company_planned;
         self.company_started += o.company_started;
         self.company_failed += o.company_failed;
+        self.company_killed += o.company_killed;
         self.failing.extend(o.failing);
         self.failing_total += o.failing_total;
         self.requested_not_run += o.requested_not_run;
@@ -603,6 +605,9 @@ fn run_session_batch(ctx: &Arc<Ctx>, gen: Gen, seed: u64, sessions: u64, threads
                                 cov.runs += 1;
                                 if r2.panic.is_some() {
                                     cov.company_failed += 1;
+                                }
+                                if r2.crashed.is_some() {
+                                    cov.company_killed += 1;
                                 }
                             }
                         }
@@ -682,9 +687,10 @@ fn write_session_replay(
         .map(|(i, (sched, crash, gap, drift, company))| {
             json!({
                 "second_instance_running_meanwhile": match company {
-                    Some((g, sc, at)) => json!({
+                    Some((g, sc, at, kill_at)) => json!({
                         "generator": if *g == 0 { "layout" } else { "likely" },
                         "started_before_file_system_mutation": at,
+                        "killed_at_its_own_file_system_mutation": kill_at,
                         "schedule": schedule::to_json(sc, &ctx.image),
                     }),
                     None => json!(null),
@@ -763,6 +769,7 @@ fn session_steps_from_json(j: &serde_json::Value, image: &FsImage) -> Result<(Ve
                 if c["generator"].as_str() == Some("likely") { 1u8 } else { 0u8 },
                 schedule::from_json(&c["schedule"], image)?,
                 c["started_before_file_system_mutation"].as_u64().unwrap_or(0),
+                c["killed_at_its_own_file_system_mutation"].as_u64(),
             )),
             _ => None,
         };
@@ -1809,6 +1816,7 @@ fn cmd_check(a: &Args) -> i32 {
                     "runs_with_a_second_instance_planned": c.company_planned,
                     "second_instances_started_before_a_file_system_mutation_of_the_first": c.company_started,
                     "second_instances_that_failed_loudly_not_judged": c.company_failed,
+                    "second_instances_killed_half_way_while_the_first_went_on": c.company_killed,
                     "file_system_mutations": c.fs_mutations,
                     "metadata_queries": c.metadata_queries,
                     "crash_points_passed": c.crash_points,
